@@ -100,6 +100,70 @@ func runC16Extra(run *ev.Run) {
 		close(done)
 		_ = pc.Close()
 	}
+	// ---- (3) a socket that is closed while datagrams for it are still undelivered (nobody was reading): once it is
+	// closed its service is unbound, and a sender must be told so like for any other unbound service
+	for i := 0; i < run.Pick(4, 30); i++ {
+		svc := fmt.Sprintf("uq%d", i)
+		victim, err := b.ListenPacket(svc)
+		if err != nil {
+			continue
+		}
+		pc, err := a.ListenPacket("")
+		if err != nil {
+			_ = victim.Close()
+			continue
+		}
+		done := make(chan struct{})
+		ch := pc.SubscribeUnreachable(done)
+		var got atomic.Int64
+		go func() {
+			for n := range ch {
+				if n.Problem == "service unknown" && n.ToNode == "bb" && n.ToService == svc {
+					got.Add(1)
+				}
+			}
+		}()
+		pending := 1 + i%4
+		for k := 0; k < pending; k++ {
+			_, _ = pc.WriteTo([]byte("unread"), a.NewAddr("bb", svc))
+		}
+		time.Sleep(time.Duration(5+10*(i%3)) * time.Millisecond)
+		early := got.Load()
+		closed := make(chan struct{})
+		go func() { _ = victim.Close(); close(closed) }()
+		closeReturned := true
+		select {
+		case <-closed:
+		case <-time.After(20 * time.Second):
+			closeReturned = false
+		}
+		ok := false
+		for try := 0; try < 40 && !ok; try++ {
+			_, _ = pc.WriteTo([]byte("after-close"), a.NewAddr("bb", svc))
+			for w := 0; w < 10 && !ok; w++ {
+				time.Sleep(25 * time.Millisecond)
+				ok = got.Load() > early
+			}
+		}
+		run.Eval(1)
+		run.Count("closed_with_unread_datagrams", 1)
+		if !ok {
+			// is the node still reachable at all? (otherwise the absence of a notice proves nothing)
+			ctx, cancel := context.WithTimeout(context.Background(), 10*time.Second)
+			_, _, perr := a.Ping(ctx, "bb", 30)
+			cancel()
+			if perr != nil {
+				run.Inconclusive(fmt.Sprintf("C16 extras: bb not reachable after closing a socket with unread datagrams (%v)", perr))
+			}
+			run.Violation("notice:missing:after-close-with-unread-datagrams", fmt.Sprintf("socket %q on bb was closed while %d datagram(s) for it were undelivered (Close returned: %v); 40 further datagrams to that service over 10 s produced no 'service unknown' notice at the sending socket (ping to bb afterwards: %v)", svc, pending, closeReturned, perr), nil)
+			close(done)
+			_ = pc.Close()
+			break
+		}
+		run.Distinct(fmt.Sprintf("closed-unread|pending=%d", pending))
+		close(done)
+		_ = pc.Close()
+	}
 	// ---- (2) local dials
 	for i := 0; i < run.Pick(3, 12); i++ {
 		target := "ba"
